@@ -414,8 +414,8 @@ def replay_dict_phases(vals, kind):
         try:
             ctls = S._generate_ctls_without_code_map(snap, start, end, _Cfg(), None)
         except Exception as ex:
-            return {'case': {'start': start, 'end': end, 'bytes': snap[start:end]}, 'diffs': [('exception', repr(ex)[:200], 'none')]}
+            return {'case': {'start': start, 'end': end, 'bytes': snap[start:min(65536, end + 4)]}, 'diffs': [('exception', repr(ex)[:200], 'none')]}
         errs = tiling_errors(ctls, start, end)
         if errs:
-            return {'case': {'start': start, 'end': end, 'bytes': snap[start:end]}, 'diffs': [('tiling', errs, 'none')]}
+            return {'case': {'start': start, 'end': end, 'bytes': snap[start:min(65536, end + 4)]}, 'diffs': [('tiling', errs, 'none')]}
     return {'case': {}, 'diffs': []}
